@@ -345,6 +345,55 @@ def stress_check(kind, case, rec):
 
 
 # ---------------------------------------------------------------------------------------------------------------
+def v2_strategy(kind, tier):
+    return st.fixed_dictionaries({"mesh": st.sampled_from(["quad", "triangle", "quad8"]).flatmap(lambda k: gm.st_mesh(k, tier, max_n=3, curved=False)),
+                                  "E": fl(0.5, 5), "nu": fl(0.0, 0.45), "seed": st.integers(0, 2**32 - 1), "amp": st.sampled_from([0.03, 0.1]),
+                                  "view": st.sampled_from(["Kirchhoff", None])})
+
+
+def v2_check(kind, case, rec):
+    """a body on a plain two-component field (2 x 2 stresses, e.g. plane stress): the view's cell data are the quadrature means of
+    the 2 x 2 stress (Voigt order xx, yy, xy), its principal values and the von Mises stress of the tensor embedded in 3-d"""
+    fem = import_felupe()
+    mesh, info = gm.build(case["mesh"])
+    region = gm.region(mesh, info)
+    X = np.array(mesh.points)
+    rng = np.random.default_rng(case["seed"])
+    fld = fem.Field(region, dim=2)
+    fc = fem.FieldContainer([fld])
+    H = case["amp"] * rng.uniform(-1, 1, (2, 2))
+    fld.values[...] = (X - X.mean(0)) @ H.T + 0.3 * case["amp"] * info["h"] * rng.uniform(-1, 1, X.shape)
+    F = np.asarray(fc.extract()[0]).copy()
+    um = fem.LinearElasticPlaneStress(E=case["E"], nu=case["nu"])
+    solid = fem.SolidBody(um, fc)
+    P = np.asarray(um.gradient([F.copy(), None])[0], float).copy()
+    tau = np.einsum("ij...,kj...->ik...", P, F)
+    stype = case["view"]
+    ref = tau if stype else P
+    sc = max(float(np.abs(ref).max()), 1e-9)
+    rec.nontrivial = mesh.ncells >= 2
+    cd = fem.ViewSolid(fc, solid=solid, stress_type=stype).mesh.cell_data
+    lab = f"{stype} Stress" if stype else "Stress"
+    if not rec.require("view-labels", lab in cd and f"Equivalent of {lab}" in cd, list(cd.keys())):
+        return
+    got = np.asarray(cd[lab])
+    v3 = np.stack([ref[0, 0], ref[1, 1], ref[0, 1]]).mean(-2).T
+    rec.close("view-2d:stress-cell-means(voigt)", float(np.abs(got - v3).max()) / sc if got.shape == v3.shape else float("inf"), 1e-11)
+    R3 = np.zeros((3, 3) + ref.shape[2:])
+    R3[:2, :2] = ref
+    s = R3 - np.trace(R3) / 3 * np.eye(3).reshape(3, 3, 1, 1)
+    vm = np.sqrt(1.5 * (s * s).sum((0, 1)))
+    got = np.asarray(cd[f"Equivalent of {lab}"]).ravel()
+    rec.close("view-2d:von-mises-of-the-embedded-tensor", float(np.abs(got - vm.mean(0)).max()) / sc if got.shape == vm.mean(0).shape else float("inf"), 1e-9, {"trace": float(np.abs(np.trace(ref)).max())})
+    if float(np.abs(ref - np.swapaxes(ref, 0, 1)).max()) <= 1e-13 * sc:
+        # (the small-strain law is not objective: P F^T is symmetric only without rotation; P itself always is)
+        rec.label("symmetric-stress:principal-values-decided")
+        pv = np.linalg.eigvalsh(ref.transpose(2, 3, 0, 1)).mean(0)
+        got = np.sort(np.asarray(cd[f"Principal Values of {lab}"]), axis=1)
+        rec.close("view-2d:principal-stresses", float(np.abs(got - np.sort(pv, axis=1)).max()) / sc if got.shape == pv.shape else float("inf"), 1e-9)
+
+
+# ---------------------------------------------------------------------------------------------------------------
 def fm_strategy(kind, tier):
     return st.fixed_dictionaries({"mesh": gm.st_mesh("hexahedron" if kind == "3d" else "quad", tier, max_n=3, curved=False), "seed": st.integers(0, 2**32 - 1),
                                   "frac": fl(0.2, 0.9), "center": st.lists(fl(-2, 2), min_size=3, max_size=3), "mixed": st.booleans(), "sparse": st.booleans()})
@@ -407,6 +456,7 @@ FAMILIES = [
     Family("project", PROJ, proj_check, strategy=proj_strategy, n={"quick": 6, "thorough": 800}, chunk=6, weight=2),
     Family("extrapolate-topoints", ["quad", "hexahedron", "quad9", "hexahedron27"], ext_check, strategy=ext_strategy, n={"quick": 10, "thorough": 1000}, chunk=10),
     Family("stress", STRESS, stress_check, strategy=stress_strategy, n={"quick": 8, "thorough": 600}, chunk=4, weight=4),
+    Family("view-2d", ["planestress"], v2_check, strategy=v2_strategy, n={"quick": 8, "thorough": 400}, chunk=8),
     Family("force-moment", ["3d", "2d"], fm_check, strategy=fm_strategy, n={"quick": 10, "thorough": 1000}, chunk=10),
 ]
 
